@@ -346,6 +346,17 @@ class Exec(Engine):
                 if name in ci.properties:
                     return self.call_repo(st, key, [v], {}, node)
                 return [(st, VFn(('bound', v, key)))]
+            # a field of a subclass read through a reference of the base class (after an isinstance test):
+            # the dynamic class must be one that has the field (AttributeError otherwise)
+            subs = [c for c in REG.subclasses(v.cls) if c != v.cls and name in REG.classes[c].fields]
+            if subs:
+                tests = [self.class_is(st, v.t, c) for c in subs]
+                self.prove(st, OR(*tests), 'aorte', node,
+                           'AttributeError: %s has no attribute %s unless it is a %s' % (v.cls, name, ' / '.join(subs)))
+                alts = [(t, self.load_field(st, VRef(c, v.t), name, node)) for t, c in zip(tests, subs)]
+                if len(alts) == 1:
+                    return [(st, alts[0][1])]
+                return [(st, mk_union(alts))]
             raise Unsupported('attribute %s.%s is neither a declared field nor a method' % (v.cls, name), node)
         if isinstance(v, VNone):
             self.prove(st, FALSE, 'aorte', node, "AttributeError: 'NoneType' object has no attribute %r" % name)
